@@ -92,6 +92,31 @@ def program(draw, tier):
             nest["active"] = [0]
         stmts.append(nest)
         ports.append("nest")
+    # optional dynamic children with their own timers: map_ children come and go with the keys, reduce combiners are
+    # created / re-bound / retired as the tree is re-shaped, switch_ branches are replaced - a pending wake-up of a live
+    # child must survive all of that, and a stopped child's requests die with it
+    dyn = draw(st.sampled_from([None, None, None, "map", "reduce", "switch"]))
+    if dyn in ("map", "reduce"):
+        from hgv import tsmodel as tm
+        opts = {"cancel": True, "multi": True, "no_rewrite": True, "keys": draw(st.sampled_from([3, 5, 9]))}
+        dscript = draw(tm.history(("TSD", "int", ("TS", "int")), start, horizon, opts, max_cycles=10 if big else 6))
+        stmts.append({"id": "dd", "op": "src", "schema": "TSD[int,TS[int]]", "script": dscript})
+        if dyn == "map":
+            subs["F"] = {"params": ["TS[int]"], "names": ["x"], "out": "TS[int]", "ret": "t", "stmts": [draw(timer("t", [{"arg": 0}], horizon, start))]}
+            stmts.append({"id": "dyn", "op": "op", "name": "map_", "args": [{"fn": "F"}, {"ts": "dd"}], "has_out": True})
+        else:
+            subs["C"] = {"params": ["TS[int]", "TS[int]"], "names": ["lhs", "rhs"], "out": "TS[int]", "ret": "t",
+                         "stmts": [draw(timer("t", [{"arg": 0}, {"arg": 1}], horizon, start))]}
+            stmts.append({"id": "dyn", "op": "op", "name": "reduce", "args": [{"fn": "C"}, {"ts": "dd"}], "has_out": True})
+        stmts.append({"id": "drec", "op": "node", "ins": ["dyn"], "log_inputs": False, "valid": []})
+    elif dyn == "switch":
+        ks = [[t, [{"k": "set", "v": draw(st.integers(0, 1))}]] for t in draw(gen.time_set(start, end - 1, 1, 5))]
+        stmts.append({"id": "skey", "op": "src", "schema": "TS[int]", "script": ks})
+        for b in ("B0", "B1"):
+            subs[b] = {"params": ["TS[int]"], "names": ["x"], "out": "TS[int]", "ret": "t", "stmts": [draw(timer("t", [{"arg": 0}], horizon, start))]}
+        stmts.append({"id": "dyn", "op": "op", "name": "switch_", "has_out": True,
+                      "args": [{"ts": "skey"}, {"cases": [[0, "B0"], [1, "B1"]], "key_t": "int"}, {"ts": draw(st.sampled_from(ports))}]})
+        stmts.append({"id": "drec", "op": "node", "ins": ["dyn"], "log_inputs": False, "valid": []})
     # optional feedback loop: acc = src + passive(fb)
     if draw(st.integers(0, 2)) == 0:
         stmts.append({"id": "fb", "op": "fb", "schema": "TS[int]", **({"init": draw(st.integers(0, 3))} if draw(st.booleans()) else {})})
@@ -137,5 +162,8 @@ def check(case, ctx) -> Result:
             res.labels.append(k)
     if len(w.root_cycles) == 0:
         res.labels.append("no_cycles")
+    dynst = next((s_ for s_ in case["stmts"] if s_.get("id") == "dyn"), None)
+    if dynst is not None:
+        res.labels.append("dynamic_children_" + dynst["name"])
     res.summary = {"root_cycles": w.root_cycles[:40], "facts": f}
     return res
